@@ -132,8 +132,32 @@ def gen_coupled(rng, isa, maxlen):
     return lines
 
 
+def gen_wbmix(rng):
+    """AArch64: the same load/store mnemonic and register class once with address write-back and once without, the plain load
+    on a store-to-load recurrence -- two instruction forms that differ only in the addressing mode"""
+    fp = rng.choice(["d", "s", "q"])
+    a, b, c = rng.sample(range(0, 8), 3)
+    x1, x2, x3 = rng.sample(range(1, 12), 3)
+    off = rng.choice([8, 16])
+    wb = rng.choice(["[x%d], #%d" % (x1, off), "[x%d, #%d]!" % (x1, off)])
+    plain = rng.choice(["[x%d]" % x2, "[x%d, #%d]" % (x2, off)])
+    op = rng.choice(["fadd", "fmul"])
+    lines = ["ldr %s%d, %s" % (fp, a, wb), "ldr %s%d, %s" % (fp, b, plain),
+             "%s %s%d, %s%d, %s%d" % (op, "d" if fp == "q" else fp, b, "d" if fp == "q" else fp, b, "d" if fp == "q" else fp, a),
+             "str %s%d, %s" % (fp, b, plain)]
+    if rng.random() < 0.5:
+        lines.append("subs x%d, x%d, #1" % (x3, x3))
+    if rng.random() < 0.5:
+        lines.insert(rng.randrange(len(lines)), "str %s%d, %s" % (fp, c, rng.choice(["[x%d], #%d" % (x3, off), "[x%d, #%d]" % (x3, off)])))
+    return lines
+
+
 def gen_kernel(rng, isa, maxlen, kind=None):
-    kind = kind or rng.choice(["plain", "plain", "mem", "memdep", "coupled"])
+    kind = kind or rng.choice(["plain", "plain", "mem", "memdep", "coupled", "wbmix"])
+    if kind == "wbmix":
+        if isa != "x86":
+            return gen_wbmix(rng), None
+        kind = "mem"
     if kind == "coupled":
         return gen_coupled(rng, isa, maxlen), None
     if kind == "memdep":
